@@ -477,6 +477,7 @@ class Session:
         self.status_count = 0
         self.close_returned = False
         self.close_entered = False
+        self.cb_running = 0
 
     # -- callbacks given to the client -----------------------------------
     def _mode(self, mode, n):
@@ -492,6 +493,15 @@ class Session:
         if self.close_returned:
             self.obs.cb_active_after_close += 1
         m = self._mode(self.recv_cb_mode, n)
+        if self.cb_running:
+            self.obs.flags["callbacks_overlap"] = self.obs.flags.get("callbacks_overlap", 0) + 1     # two consumers at work
+        self.cb_running += 1
+        try:
+            await self._recv_body(m, n)
+        finally:
+            self.cb_running -= 1
+
+    async def _recv_body(self, m, n):
         if m == "raise":
             raise RuntimeError("receive callback failed (injected)")
         if m == "slow":
